@@ -1,0 +1,31 @@
+//go:build verif
+
+package memefish
+
+import "github.com/cloudspannerecosystem/memefish/token"
+
+// This file is compiled only with -tags verif. It adds nothing to the normal build.
+// It exposes the lexer's recovery mode and private cursor to the verification harness in /verif.
+
+// VerifNextToken advances the lexer like NextToken, in panic mode (noPanic == false)
+// or in the recovery mode used while skipping tokens for Bad nodes (noPanic == true).
+func (l *Lexer) VerifNextToken(noPanic bool) (err error) {
+	defer func() {
+		if r := recover(); r != nil {
+			e, ok := r.(*Error)
+			if ok {
+				err = e
+			} else {
+				panic(r)
+			}
+		}
+	}()
+
+	l.nextToken(noPanic)
+	return
+}
+
+// VerifState returns the private lexer state.
+func (l *Lexer) VerifState() (pos int, dotIdent bool, lastTokenKind token.TokenKind) {
+	return l.pos, l.dotIdent, l.lastTokenKind
+}
